@@ -377,6 +377,10 @@ Proof.
   intros I. unfold sorted. apply s_sorted_good_acc; [apply SetInv_wfh, I|apply SetInv_PD, I|apply Good_nil|intros a y []].
 Qed.
 
+Lemma s_sorted_spec d : SetInv d ->
+  Permutation (sorted d) d /\ Forall wfh (sorted d) /\ StronglySorted nbelow (sorted d).
+Proof. intros I. exact (conj (s_sorted_perm d) (s_sorted_good d I)). Qed.
+
 Lemma s_sorted_in d n : In n (sorted d) <-> In n d.
 Proof.
   split; intros H; [eapply Permutation_in; [apply s_sorted_perm|exact H]|
